@@ -31,7 +31,9 @@ P_ALIGN, P_SIZE = 32, 64
 INST = r'''
 #include "rkcommon/utility/Optional.h"
 #include "rkcommon/utility/Any.h"
+#include "rkcommon/utility/getEnvVar.h"
 namespace c09inst {
+struct NoEq { int x; };
 struct alignas(32) P { P(); P(const P &); P(P &&); P &operator=(const P &); P &operator=(P &&); ~P(); int x[9]; };
 static_assert(alignof(P) == 32 && sizeof(P) == 64, "payload layout assumed by the extractor");
 bool operator==(const P &, const P &); bool operator<(const P &, const P &); bool operator<=(const P &, const P &);
@@ -55,8 +57,15 @@ void use(const P &p, const Optional<Q> &cq, Optional<Q> &q, const Optional<P> &c
   Optional<P> m = rkcommon::utility::make_optional<P>(p);
   (void)(ca == cb); (void)(ca != cb); (void)(ca < cb); (void)(ca <= cb); (void)(ca > cb); (void)(ca >= cb);
   Any x(1); x = 2; (void)x.get<int>(); const Any &cx = x; (void)cx.get<int>(); (void)cx.is<int>();
+  Any ne(NoEq{1}); (void)(ne == ne);
 }
 }
+namespace rkcommon { namespace utility { namespace c09probe {
+std::integral_constant<bool, (bool)rkcommon::traits::HasOperatorEqualsT<int>::value> has_eq_int;
+std::integral_constant<bool, (bool)rkcommon::traits::HasOperatorEqualsT<std::string>::value> has_eq_string;
+std::integral_constant<bool, (bool)rkcommon::traits::HasOperatorEqualsT<c09inst::P>::value> has_eq_payload;
+std::integral_constant<bool, (bool)rkcommon::traits::HasOperatorEqualsT<c09inst::NoEq>::value> has_eq_noeq;
+}}}
 '''
 
 METHS = ["MDefCtor", "MCtorValue", "MCtorCopy", "MCtorConvCopy", "MCtorMove", "MCtorConvMove", "MMakeOptional", "MDtor",
@@ -846,6 +855,142 @@ def any_facts(docs, notes):
         notes.append("Any: %r" % (ex,))
     return toks, holder
 
+# ------------------------------------------------------------------ getEnvVar.h and rktraits.h
+KINDS = {"float": "KFloat", "int": "KInt", "std::string": "KStr"}
+
+
+def env_facts(docs, notes):
+    env = {k: ["EUnknown"] for k in ("KInt", "KFloat", "KStr")}
+    generic = False
+    for d in docs:
+        for x, par in walk(d):
+            if x.get("kind") != "FunctionDecl" or x.get("name") != "getEnvVar" or body_of(x) is None:
+                continue
+            t = qt(x)
+            try:
+                if par and par[-1].get("kind") == "FunctionTemplateDecl":
+                    ss = [s for s in stmts(body_of(x)) if not (strip(s).get("kind") == "DeclStmt" and all(
+                        c.get("kind") == "StaticAssertDecl" for c in inner(strip(s))))]
+                    if len(ss) == 1 and strip(ss[0]).get("kind") == "ReturnStmt":
+                        e = strip(inner(strip(ss[0]))[0]) if inner(strip(ss[0])) else {}
+                        generic = (e.get("kind") == "InitListExpr" and not inner(e)) or (e.get("kind") == "CXXConstructExpr" and not inner(e))
+                    continue
+                m = re.match(r"^Optional<(.+)> \(const std::string &\)$", t)
+                if not m or m.group(1) not in KINDS:
+                    continue
+                kind = KINDS[m.group(1)]
+                pid = [c["id"] for c in inner(x) if c.get("kind") == "ParmVarDecl"][0]
+                toks = []
+                sid = fid = None
+                for s0 in stmts(body_of(x)):
+                    s1 = strip(s0)
+                    if s1.get("kind") == "DeclStmt" and len(inner(s1)) == 1 and inner(s1)[0].get("kind") == "VarDecl" and inner(inner(s1)[0]):
+                        vd = inner(s1)[0]
+                        e = strip(inner(vd)[0])
+                        if e.get("kind") == "CallExpr" and callee_name(e) == "getenv" and len(inner(e)) == 2:
+                            a = strip(inner(e)[1])
+                            if a.get("kind") == "CXXMemberCallExpr" and inner(a)[0].get("name") == "c_str" and \
+                                    (strip(inner(inner(a)[0])[0]).get("referencedDecl") or {}).get("id") == pid:
+                                sid = vd["id"]
+                                toks.append("EGetenv"); continue
+                        if e.get("kind") == "BinaryOperator" and e.get("opcode") == "!=" and qt(vd) == "bool" and sid:
+                            a, b = strip(inner(e)[0]), strip(inner(e)[1])
+                            refs = [(y.get("referencedDecl") or {}).get("id") for y in (a, b) if y.get("kind") == "DeclRefExpr"]
+                            nulls = [y for y in (a, b) if y.get("kind") in ("CXXNullPtrLiteralExpr", "GNUNullExpr") or
+                                     (y.get("kind") == "IntegerLiteral" and y.get("value") == "0")]
+                            if refs == [sid] and len(nulls) == 1:
+                                fid = vd["id"]
+                                toks.append("EFoundNonNull"); continue
+                        toks.append("EUnknown"); continue
+                    if s1.get("kind") == "ReturnStmt" and inner(s1):
+                        e = strip(inner(s1)[0])
+                        while e.get("kind") == "CXXConstructExpr" and len(inner(e)) == 1:
+                            e = strip(inner(e)[0])
+                        if e.get("kind") == "ConditionalOperator" and fid:
+                            c, a, b = inner(e)
+                            c, a, b = strip(c), strip(a), strip(b)
+                            while a.get("kind") == "CXXConstructExpr" and "Optional<" in qt(a) and len(inner(a)) == 1 and \
+                                    strip(inner(a)[0]).get("kind") == "CXXConstructExpr" and "Optional<" in qt(strip(inner(a)[0])):
+                                a = strip(inner(a)[0])          # copy/move construction of the temporary Optional<K>(...)
+                            conv = "CvOther"
+                            uses_str = [y for y, _ in walk(a) if y.get("kind") == "DeclRefExpr" and (y.get("referencedDecl") or {}).get("id") == sid]
+                            calls = [callee_name(y) for y, _ in walk(a) if y.get("kind") == "CallExpr"]
+                            if a.get("kind") == "CXXConstructExpr" and "Optional<" in qt(a) and len(inner(a)) == 1 and len(uses_str) == 1:
+                                if kind == "KInt" and calls == ["atoi"]:
+                                    conv = "CvAtoi"
+                                elif kind == "KFloat" and calls == ["atof"] and any(
+                                        y.get("kind") in ("CStyleCastExpr", "CXXStaticCastExpr", "ImplicitCastExpr") and qt(y) == "float" for y, _ in walk(a)):
+                                    conv = "CvAtofFloat"
+                                elif kind == "KStr" and not calls and any(y.get("kind") in ("CXXConstructExpr", "CXXFunctionalCastExpr", "CXXTemporaryObjectExpr")
+                                                                         and "string" in qt(y) and "Optional" not in qt(y) for y, _ in walk(a)):
+                                    conv = "CvString"
+                            while b.get("kind") == "CXXConstructExpr" and "Optional<" in qt(b) and len(inner(b)) == 1 and \
+                                    strip(inner(b)[0]).get("kind") in ("CXXConstructExpr", "CXXTemporaryObjectExpr") and "Optional<" in qt(strip(inner(b)[0])):
+                                b = strip(inner(b)[0])
+                            else_ok = b.get("kind") in ("CXXConstructExpr", "CXXTemporaryObjectExpr") and "Optional<" in qt(b) and not inner(b)
+                            cond_ok = c.get("kind") == "DeclRefExpr" and (c.get("referencedDecl") or {}).get("id") == fid
+                            toks.append("ERetFoundConvElseEmpty %s" % conv if cond_ok and else_ok else "EUnknown"); continue
+                        toks.append("EUnknown"); continue
+                    toks.append("EUnknown")
+                env[kind] = toks or ["EUnknown"]
+            except Exception as ex:
+                notes.append("getEnvVar %s: %r" % (t, ex))
+    return env, generic
+
+
+def trait_facts(docs, notes):
+    tf = dict(tf_eq_int=False, tf_eq_string=False, tf_eq_payload=False, tf_eq_noeq=True, tf_same_dispatch=False,
+              tf_impl_eq_shape=False, tf_impl_noeq_false=False)
+    probes = {"has_eq_int": "tf_eq_int", "has_eq_string": "tf_eq_string", "has_eq_payload": "tf_eq_payload", "has_eq_noeq": "tf_eq_noeq"}
+    seen = set()
+    same, impl_eq, impl_no = [], [], []
+    try:
+        for d in docs:
+            for x, par in walk(d):
+                if x.get("kind") == "VarDecl" and x.get("name") in probes:
+                    t = (x.get("type", {}).get("desugaredQualType") or "").replace(" ", "")
+                    if t in ("std::integral_constant<bool,true>", "std::integral_constant<bool,false>"):
+                        tf[probes[x["name"]]] = t.endswith("true>")
+                        seen.add(x["name"])
+                if x.get("kind") == "CXXMethodDecl" and body_of(x) is not None and any(
+                        p.get("kind") == "ClassTemplateSpecializationDecl" and p.get("name") == "handle" for p in par):
+                    ss = stmts(body_of(x))
+                    e = strip(inner(strip(ss[0]))[0]) if len(ss) == 1 and strip(ss[0]).get("kind") == "ReturnStmt" and inner(strip(ss[0])) else None
+                    if x.get("name") == "isSame":
+                        ok = e is not None and e.get("kind") == "CXXMemberCallExpr" and inner(e)[0].get("name") == "isSameImpl" and \
+                            strip(inner(inner(e)[0])[0]).get("kind") == "CXXThisExpr" and len(inner(e)) == 2
+                        same.append(ok)
+                    if x.get("name") == "isSameImpl":
+                        rt = qt(x)
+                        if "NoOperatorEquals<" in rt:
+                            impl_no.append(e is not None and e.get("kind") == "CXXBoolLiteralExpr" and e.get("value") in (False, "false", "False"))
+                        elif "HasOperatorEquals<" in rt:
+                            ss2 = stmts(body_of(x))
+                            ok = False
+                            if len(ss2) == 2 and strip(ss2[0]).get("kind") == "DeclStmt" and strip(ss2[1]).get("kind") == "ReturnStmt":
+                                vd = inner(strip(ss2[0]))[0]
+                                dc = [y for y, _ in walk(vd) if y.get("kind") == "CXXDynamicCastExpr"]
+                                cs = conjuncts(inner(strip(ss2[1]))[0])
+                                if dc and len(cs) == 2:
+                                    n0, eq = cs
+                                    nullt = n0.get("kind") == "BinaryOperator" and n0.get("opcode") == "!=" and \
+                                        any((y.get("referencedDecl") or {}).get("id") == vd["id"] for y, _ in walk(n0) if y.get("kind") == "DeclRefExpr") and \
+                                        any(y.get("kind") == "CXXNullPtrLiteralExpr" for y, _ in walk(n0))
+                                    vals = [y for y, _ in walk(eq) if y.get("kind") == "MemberExpr" and y.get("name") == "value"]
+                                    iseq = (eq.get("kind") == "BinaryOperator" and eq.get("opcode") == "==") or \
+                                        (eq.get("kind") == "CXXOperatorCallExpr" and callee_name(eq) == "operator==")
+                                    ok = nullt and iseq and len(vals) == 2
+                            impl_eq.append(ok)
+        tf["tf_same_dispatch"] = bool(same) and all(same)
+        tf["tf_impl_eq_shape"] = bool(impl_eq) and all(impl_eq)
+        tf["tf_impl_noeq_false"] = bool(impl_no) and all(impl_no)
+        if len(seen) != 4:
+            notes.append("trait probes found: %s" % sorted(seen))
+            tf["tf_eq_noeq"] = True
+    except Exception as ex:
+        notes.append("traits: %r" % (ex,))
+    return tf
+
 
 def extract(repo, work):
     notes = []
@@ -853,7 +998,9 @@ def extract(repo, work):
     table, misc, lay = optional_facts(docs, notes)
     cmp = free_functions(docs, table, notes)
     toks, holder = any_facts(docs, notes)
-    return dict(table={m: {"fresh": table[m][0], "prog": table[m][1]} for m in METHS}, cmp=cmp, misc=misc, lay=lay,
+    env, generic = env_facts(docs, notes)
+    tf = trait_facts(docs, notes)
+    return dict(env=env, env_generic=generic, traits=tf, table={m: {"fresh": table[m][0], "prog": table[m][1]} for m in METHS}, cmp=cmp, misc=misc, lay=lay,
                 any=toks, holder=holder, notes=notes)
 
 
@@ -862,13 +1009,16 @@ def unknown_facts(note):
                 misc={k: False for k in MISC},
                 lay=dict(lf_alignas_payload=False, lf_align_value=0, lf_elem_bytes=0, lf_extent=0, lf_payload_align=P_ALIGN,
                          lf_payload_size=P_SIZE, lf_flag_default_false=False),
-                any={m: ["TUnknown"] for m in AMETHS}, holder="HOther", notes=[note])
+                any={m: ["TUnknown"] for m in AMETHS}, holder="HOther", notes=[note],
+                env={k: ["EUnknown"] for k in ("KInt", "KFloat", "KStr")}, env_generic=False,
+                traits=dict(tf_eq_int=False, tf_eq_string=False, tf_eq_payload=False, tf_eq_noeq=True, tf_same_dispatch=False,
+                            tf_impl_eq_shape=False, tf_impl_noeq_false=False))
 
 
 def coq_text(f):
     b = lambda x: "true" if x else "false"
     L = ["(* GENERATED by props/C09/factgen.py from the working tree - do not edit, not under version control. *)",
-         "From Coq Require Import List NArith.", "From C09 Require Import Model Micro.", "Import ListNotations.",
+         "From Coq Require Import List NArith.", "From C09 Require Import Model Env Micro.", "Import ListNotations.",
          "Local Open Scope N_scope.", ""]
     for m in METHS:
         e = f["table"][m]
@@ -887,6 +1037,11 @@ def coq_text(f):
     L += ["Definition gen_any (m : ameth) : list atok :=", "  match m with"]
     L += ["  | %s => [%s]" % (m, "; ".join(f["any"][m])) for m in AMETHS]
     L += ["  end.", "", "Definition gen_holder : holderkind := %s." % f["holder"], ""]
+    L += ["Definition gen_env (k : kind) : list etok :=", "  match k with"]
+    L += ["  | %s => [%s]" % (k, "; ".join(f["env"][k])) for k in ("KInt", "KFloat", "KStr")]
+    L += ["  end.", "", "Definition gen_env_generic_empty : bool := %s." % b(f["env_generic"]), ""]
+    tfk = ["tf_eq_int", "tf_eq_string", "tf_eq_payload", "tf_eq_noeq", "tf_same_dispatch", "tf_impl_eq_shape", "tf_impl_noeq_false"]
+    L += ["Definition gen_traits : traitfacts :=", "  {| " + "; ".join("%s := %s" % (k, b(f["traits"][k])) for k in tfk) + " |}.", ""]
     return "\n".join(L)
 
 
